@@ -2,6 +2,7 @@
 # prints the prompt for an independent seeding sub-agent: property text + scratch worktree only
 import json,sys
 pid=sys.argv[1]
+L1,L2=(sys.argv[2],sys.argv[3]) if len(sys.argv)>3 else ('A','B')
 p=[json.loads(l) for l in open('/verif/properties.jsonl') if json.loads(l)['id']==pid][0]
 wt=f'/tmp/wt_{pid}'
 print(f"""You are helping to evaluate a verification effort by writing realistic *property-breaking changes* (mutations) to an open-source Go project, Basekick-Labs/arc (a time-series database). You have your own scratch git worktree of the project at {wt} . Work ONLY inside {wt} (never touch /repo or /verif, never read /verif). Everything is offline: use
@@ -16,19 +17,19 @@ Statement: {p['statement']}
 Quantified over: {p['quantifier']['text']}
 Code anchors (where the mechanisms live): {json.dumps(p['anchors']['mechanism'])}
 
-Your task: produce TWO independent changes, A and B, to the project's non-test Go source, each of which
+Your task: produce TWO independent changes, {L1} and {L2}, to the project's non-test Go source, each of which
   1. breaks the property above (for some input / schedule / crash point / fault sequence / history),
   2. still compiles (go build ./...) and still passes the EXISTING tests of every package it touches, unedited,
   3. looks like a plausible commit a developer might make (a refactor, an optimisation, a 'simplification', an off-by-one, a reordered pair of statements, a dropped check that 'can never happen', ...) — not sabotage that ordinary use would expose at once,
   4. needs something specific to manifest: a particular interleaving, a crash or fault at a particular point, a multi-step sequence of operations, an unusual input, or two cooperating sites that each look fine alone.
-A and B should be different in kind and touch different functions if possible. Keep each change small (a few lines to a few dozen).
+{L1} and {L2} should be different in kind and touch different functions if possible. Keep each change small (a few lines to a few dozen).
 
-For each change write a demonstration: a Go test file zz_seed_demo_A_test.go (resp. _B_) that lives in the package directory of the code it exercises, containing one test function (TestSeedDemoA_... / TestSeedDemoB_...) that PASSES on the unmodified tree and FAILS with the change applied. The demo must be deterministic, self-contained (temp dirs, no network), and finish in under 60 s.
+For each change write a demonstration: a Go test file zz_seed_demo_{L1}_test.go (resp. _{L2}_) that lives in the package directory of the code it exercises, containing one test function (TestSeedDemo{L1}_... / TestSeedDemo{L2}_...) that PASSES on the unmodified tree and FAILS with the change applied. The demo must be deterministic, self-contained (temp dirs, no network), and finish in under 60 s.
 
 Procedure: read the anchored code first; design the change; apply it in the worktree; run go build ./... ; run the touched packages' existing tests; run your demo with and without the change (git stash / git diff > file; git checkout -- . to undo). Produce the diffs with `git diff` from the worktree root when only that change is applied (do not include the demo test files in the diff).
 
 Deliverables, all in {wt}/seed_out/ :
-  A.diff, B.diff                       (git diff of each change alone, relative to the worktree root, applying cleanly with `git apply` on a clean tree)
-  zz_seed_demo_A_test.go, zz_seed_demo_B_test.go
-  meta.json  of the form {{"A": {{"summary": "...what was changed and why it breaks the property...", "what_it_needs_to_manifest": "...", "files_changed": ["..."], "demo_package_dir": "internal/<pkg>", "demo_test_name": "TestSeedDemoA_..."}}, "B": {{...}}}}
+  {L1}.diff, {L2}.diff                       (git diff of each change alone, relative to the worktree root, applying cleanly with `git apply` on a clean tree)
+  zz_seed_demo_{L1}_test.go, zz_seed_demo_{L2}_test.go
+  meta.json  of the form {{"{L1}": {{"summary": "...what was changed and why it breaks the property...", "what_it_needs_to_manifest": "...", "files_changed": ["..."], "demo_package_dir": "internal/<pkg>", "demo_test_name": "TestSeedDemo{L1}_..."}}, "{L2}": {{...}}}}
 Leave the worktree clean (git checkout -- . ; remove the demo files from package dirs) when done, keeping only seed_out/. In your final reply list the files and give a 3-line summary of each change. If after serious effort you can produce only one change that meets all the conditions, deliver that one and say so.""")
